@@ -2,7 +2,7 @@
 
 use std::time::Duration;
 
-use super::msg::MAX_MSG_LENGTH;
+use super::msg::{HELLO_MSG_LENGTH, MAX_MSG_LENGTH};
 
 /// Behavior when ports are exhausted and a connect is requested.
 #[derive(Debug, Clone, Copy, PartialEq, Eq, PartialOrd, Ord, Hash)]
@@ -178,7 +178,11 @@ impl Cfg {
     /// # Panics
     /// Panics if the configuration is invalid.
     pub fn max_frame_length(&self) -> u32 {
-        (MAX_MSG_LENGTH as u32).checked_add(self.chunk_size).expect("maximum frame size exceeds u32::MAX")
+        // Largest frames: the hello message, a data chunk, and a port data message, which carries
+        // a port number and a port id (8 bytes) for every 4 bytes of chunk size.
+        let data = (MAX_MSG_LENGTH as u32).checked_add(self.chunk_size).expect("maximum frame size exceeds u32::MAX");
+        let port_data = (MAX_MSG_LENGTH as u32).saturating_add(self.chunk_size.saturating_mul(2));
+        data.max(port_data).max(HELLO_MSG_LENGTH as u32)
     }
 
     /// Configuration that is balanced between memory usage, latency and throughput.
